@@ -128,7 +128,7 @@ for it in range(N):
     nsteps = rng.randint(2, 5)
     k = 0
     for step in range(nsteps):
-        action = rng.choice(["add", "add", "add_cond", "remove", "set_value", "load_and_restore", "add_dict", "del_dict"])
+        action = rng.choice(["add", "add", "add_cond", "remove", "set_value", "load_and_restore", "add_dict", "del_dict", "add_prefix", "remove_last_cond"])
         try:
             if action == "add" or not cons:
                 KINK[0] = False
@@ -141,6 +141,44 @@ for it in range(N):
                 cons.append(c)
                 history.append("add c%d: %s" % (k, d))
                 k += 1
+            elif action == "add_prefix":
+                # a constraint on an expression object that has afterwards been extended into a larger one (the two share their operator
+                # list); the extension brings in a variable the prefix does not contain
+                others = [(l, n) for (l, n) in leaves if l is not vars_[-1]] if len(vars_) > 1 else leaves[1:]
+                KINK[0] = False
+                e, d = gen(2, others)
+                if not hasattr(e, "is_leaf") or e.is_leaf():
+                    e, d = vars_[0] * p, "x0*p"
+                bigger = e * vars_[-1] + vars_[-1] ** 2
+                kink = KINK[0]
+                if rng.random() < 0.5:
+                    c = aml.Constraint(e)
+                    history.append("add c%d on a prefix of a longer expression: %s" % (k, d))
+                else:
+                    ce = aml.ConditionalExpression()
+                    ce.add_condition(aml.inequality(vars_[0], ub=rng.choice([0.5, 1.0])), e)
+                    ce.add_final_expr(vars_[0] * 2.0 - p)
+                    c = aml.Constraint(ce)
+                    history.append("add conditional c%d with a prefix of a longer expression as a branch: %s" % (k, d))
+                KINKS[id(c)] = kink
+                setattr(m, "c%d" % k, c)
+                cons.append(c)
+                k += 1
+                if rng.random() < 0.5:
+                    c = aml.Constraint(bigger)
+                    KINKS[id(c)] = kink
+                    setattr(m, "c%d" % k, c)
+                    cons.append(c)
+                    k += 1
+            elif action == "remove_last_cond":
+                # the structure is set, then a conditional constraint is the only thing removed before the next evaluation
+                cc = [c for c in cons if isinstance(c.expr, E.ConditionalExpression) and c.name and "[" not in c.name]
+                if cc and len(cons) > 1:
+                    m.set_structure()
+                    c = rng.choice(cc)
+                    delattr(m, c.name)
+                    cons.remove(c)
+                    history.append("set_structure, then remove conditional %s" % c.name)
             elif action == "add_cond":
                 ce = aml.ConditionalExpression()
                 thr = rng.choice([0.5, 1.0, vars_[0].value])           # sometimes exactly at the branch threshold
@@ -207,7 +245,12 @@ for it in range(N):
             continue
         evals += 1
         distinct.add((it, step))
-        check_model(m, cons, vars_, "model %d after %s" % (it, "; ".join(history[-3:])), failures)
+        try:
+            check_model(m, cons, vars_, "model %d after %s" % (it, "; ".join(history[-3:])), failures)
+        except Exception as ex:
+            # evaluating a model built from valid expressions must not raise
+            failures.append(dict(tag="model %d after %s" % (it, "; ".join(history[-3:])), what="evaluating the model raised %r" % (ex,)))
+            break
         if len(failures) > 20:
             break
     if len(samples) < 2:
